@@ -446,14 +446,19 @@ func (x *c13Exec) eval(st *c13State, fr *c13Fr, e ast.Expr, k func(*c13State, *c
 			x.eval(s, fr, v.Index, func(s *c13State, i *c13Term) { k(s, x.index(a, i)) })
 		})
 	case *ast.SliceExpr:
-		var parts []ast.Expr
-		for _, p := range []ast.Expr{v.X, v.Low, v.High, v.Max} {
-			if p != nil {
-				parts = append(parts, p)
+		x.eval(st, fr, v.X, func(s *c13State, base *c13Term) {
+			opt := func(s *c13State, e ast.Expr, k2 func(*c13State, *c13Term)) {
+				if e == nil {
+					k2(s, c13None)
+					return
+				}
+				x.eval(s, fr, e, k2)
 			}
-		}
-		x.evalList(st, fr, parts, func(s *c13State, ts []*c13Term) {
-			k(s, x.nary(c13OpOther, fmt.Sprintf("slice%v%v%v", v.Low != nil, v.High != nil, v.Max != nil), nil, ts))
+			opt(s, v.Low, func(s *c13State, lo *c13Term) {
+				opt(s, v.High, func(s *c13State, hi *c13Term) {
+					opt(s, v.Max, func(s *c13State, mx *c13Term) { k(s, x.sliceView(base, lo, hi, mx)) })
+				})
+			})
 		})
 	case *ast.FuncLit:
 		k(st, &c13Term{op: c13OpFuncLit, node: v, key: fmt.Sprintf("funclit@%d", v.Pos())})
